@@ -297,7 +297,13 @@ func c20Build() {
 
 	// --- js.Parse with every Options value, and every AST method
 	c20Add("js.Parse", 6, func(r *rand.Rand, op *c20Op) {
-		if r.Intn(4) == 0 {
+		if x := r.Intn(8); x == 0 {
+			// template literals are accepted as strings by AST.JSON (with and without characters that need escaping)
+			tl := func() string {
+				return "`" + gen.Pick(r, []string{"alpha alpha", "first", "", "a\nb", "q\"q", "x\\`y", "omega omega omega", "é日"}) + "`"
+			}
+			op.Data = []byte(gen.Pick(r, []string{tl(), "[" + tl() + ", " + tl() + "]", "{\"k\": " + tl() + ", \"l\": [1, " + tl() + "]}"}))
+		} else if x < 3 {
 			op.Data = c20Text(r, "json") // JSON-looking sources reach AST.JSON
 		} else {
 			op.Data = c20Text(r, "js")
